@@ -485,7 +485,7 @@ def run(tier, replay=None):
         case = json.loads(open(replay).read())["case"]
         run_cases(rep, [case], rng)
         return rep.finish(rule="replay")
-    n = 300 if tier == "quick" else 8000
+    n = 300 if tier == "quick" else 4000
     cases = corpus_cases(PROP) + [gen_chain(rng, "pandas") for _ in range(n)] + [gen_chain(rng, "polars") for _ in range(n // 4)]
     run_cases(rep, cases, rng)
     return rep.finish(
